@@ -11,6 +11,7 @@ pub mod c06;
 pub mod c07;
 pub mod c09;
 pub mod c10;
+pub mod c11;
 pub mod c12;
 pub mod c13;
 pub mod c14;
@@ -31,6 +32,7 @@ pub fn run(ctx: &Ctx, sh: &mut Shard) {
         "C07" => c07::run(ctx, sh),
         "C09" => c09::run(ctx, sh),
         "C10" => c10::run(ctx, sh),
+        "C11" => c11::run(ctx, sh),
         "C12" => c12::run(ctx, sh),
         "C13" => c13::run(ctx, sh),
         "C14" => c14::run(ctx, sh),
@@ -56,6 +58,7 @@ pub fn replay(v: &Value, sh: &mut Shard) {
         "C07" => c07::replay(v, sh),
         "C09" => c09::replay(v, sh),
         "C10" => c10::replay(v, sh),
+        "C11" => c11::replay(v, sh),
         "C12" => c12::replay(v, sh),
         "C13" => c13::replay(v, sh),
         "C14" => c14::replay(v, sh),
@@ -72,6 +75,14 @@ pub fn replay(v: &Value, sh: &mut Shard) {
 }
 pub fn extra_command(cmd: &str, args: &[String]) -> bool {
     match cmd {
+        "c11-min" => {
+            c11::find_small(args);
+            true
+        }
+        "c11-min2" => {
+            c11::find_small2(args);
+            true
+        }
         "digest-run" => {
             c20::digest_run(args);
             true
